@@ -2,6 +2,7 @@ package main
 
 import (
 	"fmt"
+	"sort"
 	"go/ast"
 	"go/token"
 	"strconv"
@@ -51,103 +52,29 @@ func init() {
 		l.p("/-- `kvstring.FieldsSeparator[0]` -/")
 		l.p("def fldSep : UInt8 := %d", fs[0])
 
-		// byte denoted by an expression like kvstring.KeyValueSeparator[0] or a char literal
-		byteOf := func(e ast.Expr) (byte, bool) {
-			switch x := e.(type) {
-			case *ast.BasicLit:
-				if x.Kind == token.CHAR {
-					if v, _, _, err := strconv.UnquoteChar(x.Value[1:len(x.Value)-1], '\''); err == nil && v < 256 {
-						return byte(v), true
-					}
-				}
-			case *ast.IndexExpr:
-				if se, ok := x.X.(*ast.SelectorExpr); ok {
-					if bl, ok := x.Index.(*ast.BasicLit); ok && bl.Value == "0" {
-						if v, ok := consts[se.Sel.Name]; ok && len(v) > 0 {
-							return v[0], true
-						}
-					}
-				}
-			}
-			return 0, false
+		finder := func(pkgRel string) *triggerFinder {
+			return &triggerFinder{consts: consts, own: loadPkgFuncs(pkgRel), kv: loadPkgFuncs("pkg/utils/kvstring")}
 		}
-		// quoteTrigger finds `if <cond> { v = strconv.Quote(v) }` in fn and decomposes <cond>
-		quoteTrigger := func(fd *ast.FuncDecl, what string) (empty bool, bs []byte, found bool) {
+		// quoteTrigger: the "quote this value?" decision of an emitter, found by structure (see c08_trigger.go). When it
+		// is not found or not understood the pinned trigger is kept and an EXTRACT-PROBLEM (broken obligation) is raised:
+		// an empty table would make the model diverge and strip the open findings of their attribution.
+		quoteTrigger := func(fd *ast.FuncDecl, pkgRel, what string, pinEmpty bool, pinBytes []byte) (bool, []byte, bool) {
 			if fd == nil {
 				problem("%s not found", what)
-				return
+				return pinEmpty, pinBytes, false
 			}
-			structured := true
-			ast.Inspect(fd.Body, func(n ast.Node) bool {
-				is, ok := n.(*ast.IfStmt)
-				if !ok || found {
-					return true
-				}
-				quotes := false
-				ast.Inspect(is.Body, func(m ast.Node) bool {
-					if ce, ok := m.(*ast.CallExpr); ok {
-						if se, ok := ce.Fun.(*ast.SelectorExpr); ok && se.Sel.Name == "Quote" {
-							quotes = true
-						}
-					}
-					return true
-				})
-				if !quotes {
-					return true
-				}
-				found = true
-				var walk func(e ast.Expr)
-				walk = func(e ast.Expr) {
-					if pe, ok := e.(*ast.ParenExpr); ok {
-						walk(pe.X)
-						return
-					}
-					be, ok := e.(*ast.BinaryExpr)
-					if !ok {
-						structured = false
-						return
-					}
-					switch be.Op {
-					case token.LOR:
-						walk(be.X)
-						walk(be.Y)
-					case token.EQL: // len(v) == 0
-						ce, ok := be.X.(*ast.CallExpr)
-						if ok {
-							if f, ok := ce.Fun.(*ast.Ident); ok && f.Name == "len" {
-								if bl, ok := be.Y.(*ast.BasicLit); ok && bl.Value == "0" {
-									empty = true
-									return
-								}
-							}
-						}
-						structured = false
-					case token.GEQ: // strings.IndexByte(v, b) >= 0
-						ce, ok := be.X.(*ast.CallExpr)
-						if ok && len(ce.Args) == 2 {
-							if se, ok := ce.Fun.(*ast.SelectorExpr); ok && se.Sel.Name == "IndexByte" {
-								if bl, ok := be.Y.(*ast.BasicLit); ok && bl.Value == "0" {
-									if b, ok := byteOf(ce.Args[1]); ok {
-										bs = append(bs, b)
-										return
-									}
-								}
-							}
-						}
-						structured = false
-					default:
-						structured = false
-					}
-				}
-				walk(is.Cond)
-				return false
-			})
-			if !found {
-				problem("%s: no `if … { v = strconv.Quote(v) }` found", what)
-			} else if !structured {
-				problem("%s: the condition guarding strconv.Quote is no longer a disjunction of `len(v) == 0` and `strings.IndexByte(v, c) >= 0`", what)
+			t, st := finder(pkgRel).find(fd, 2)
+			switch st {
+			case "ok":
+				// canonical order: the decision is a disjunction, the order of its tests does not matter
+				sort.Slice(t.bytes, func(i, j int) bool { return t.bytes[i] < t.bytes[j] })
+				return t.empty, t.bytes, true
+			case "not-understood":
+				problem("%s: the condition guarding strconv.Quote is not a disjunction of 'empty' and 'contains byte' tests any more (pinned trigger kept)", what)
+			default:
+				problem("%s: no decision guarding strconv.Quote found in the function or the helpers it calls (pinned trigger kept)", what)
 			}
-			return
+			return pinEmpty, pinBytes, false
 		}
 		bytesList := func(bs []byte) string {
 			p := make([]string, len(bs))
@@ -157,13 +84,13 @@ func init() {
 			return "[" + strings.Join(p, ", ") + "]"
 		}
 		tf := parseFile("pkg/model/tag/tags.go")
-		te, tb, _ := quoteTrigger(funcDecl(tf, "tagMap", "line"), "tag.tagMap.line")
+		te, tb, _ := quoteTrigger(funcDecl(tf, "tagMap", "line"), "pkg/model/tag", "tag.tagMap.line", true, sortedBytes(kv[0], fs[0]))
 		l.p("/-- `tagMap.line()` quotes a value when it is empty … -/")
 		l.p("def tagQuoteEmpty : Bool := %s", leanBool(te))
 		l.p("/-- … or contains one of these bytes -/")
 		l.p("def tagQuoteBytes : List UInt8 := %s", bytesList(tb))
 		ff := parseFile("pkg/model/field/field.go")
-		fe, fb, _ := quoteTrigger(funcDecl(ff, "Fields", "AsKVString"), "field.Fields.AsKVString")
+		fe, fb, _ := quoteTrigger(funcDecl(ff, "Fields", "AsKVString"), "pkg/model/field", "field.Fields.AsKVString", false, sortedBytes(kv[0], fs[0]))
 		l.p("/-- `Fields.AsKVString()` quotes a value when it is empty … -/")
 		l.p("def fieldQuoteEmpty : Bool := %s", leanBool(fe))
 		l.p("/-- … or contains one of these bytes -/")
@@ -179,7 +106,10 @@ func init() {
 			ast.Inspect(fd.Body, func(n ast.Node) bool {
 				switch x := n.(type) {
 				case *ast.IfStmt:
-					if be, ok := x.Cond.(*ast.BinaryExpr); ok && be.Op == token.GTR {
+					if be, ok := x.Cond.(*ast.BinaryExpr); ok && (be.Op == token.GTR || be.Op == token.LSS) {
+						if be.Op == token.LSS { // N < len(v)
+							be = &ast.BinaryExpr{X: be.Y, Op: token.GTR, Y: be.X}
+						}
 						if ce, ok := be.X.(*ast.CallExpr); ok {
 							if f, ok := ce.Fun.(*ast.Ident); ok && f.Name == "len" {
 								if bl, ok := be.Y.(*ast.BasicLit); ok && bl.Kind == token.INT {
@@ -248,4 +178,9 @@ func init() {
 		l.p("%s", sb.String())
 		l.write()
 	}
+}
+
+func sortedBytes(bs ...byte) []byte {
+	sort.Slice(bs, func(i, j int) bool { return bs[i] < bs[j] })
+	return bs
 }
